@@ -48,6 +48,16 @@ CHECKS = {
         'combine_bcs are checked for all shapes <= 3x3x3, indices, flips and bdspecs.',
    note='Trusted: z3, symsparse stub, reals for doubles. Index inputs are decided by exhaustive forking within the bound (n<=4/5), matrix/vector data by the solver.',
    technique='symbolic execution of real Python source + z3 (LRA/NRA), index order by solver-driven forking'),
+ 'C14': dict(
+   category='other', design_ref='4/C14',
+   text='Inductive step on a symbolic pre-state: the real Multipatch.join_dofs/_new_shared_dof/finalize run on symbolic containers (class ids integer '
+        'variables, symbolic number of classes); assuming the representation invariant, z3 proves that one join with arbitrary patches/dofs re-establishes '
+        'the invariant and realises exactly the equivalence closure, and that finalize numbers the classes gap-free with numdofs = number of classes. '
+        'One step from every invariant state covers join histories of any length/order/repetition over the index domain. Counterexamples are turned into '
+        'concrete join histories and replayed on the real Multipatch (numbering, 0/1 patch-to-global matrices).',
+   note='Trusted: z3, SymDict/SymSetList container models, the stated invariant (every class spans >= 2 patches or is empty; dict and sets agree). '
+        'Bound: 3-4 patches x 2-3 local dofs, <= 2-3 pre-existing classes; single-pair joins.',
+   technique='inductive invariant step over symbolic container state (z3 LIA), concrete-history replay'),
 }
 
 NA = {
